@@ -192,9 +192,9 @@ def install(ex):
             return out
 
         @staticmethod
-        def crypto_secretbox_open(c_, nonce, k):
-            for out, msg, n0, k0 in c.boxes:
-                if c.eq(out, c_) and c.eq(n0, nonce) and c.eq(k0, k):
+        def crypto_secretbox_open(c=None, nonce=None, k=None, _C=c):
+            for out, msg, n0, k0 in _C.boxes:
+                if _C.eq(out, c) and _C.eq(n0, nonce) and _C.eq(k0, k):
                     return msg
             raise ValueError('secretbox: authentication failed')
 
@@ -368,11 +368,27 @@ STUBS = ['libsodium / coincurve / fastecdsa / py_ecc / hashlib primitives inside
          'base58 package boundary (see C10/C09): texts are representatives of their kind, payloads symbolic']
 
 
+_REINST = {}
+
+
+def reinstantiated_key_module():
+    """key.py re-instantiated from its current source (constant-receiver calls such as ''.join(...) become proxy-aware)."""
+    import pytezos.crypto.key as K
+    from vf import bvx
+
+    if 'm' not in _REINST:
+        _REINST['m'] = bvx.load_module(K.__file__, 'pytezos.crypto.key__vf')
+    return _REINST['m']
+
+
 @contextlib.contextmanager
-def env(ex, kinds=(), extra_modules=()):
+def env(ex, kinds=(), extra_modules=(), key_module=None):
     """Install the primitive stubs and the base58 boundary; yields (crypto, boundary)."""
     import pytezos.crypto.encoding as E
     import pytezos.crypto.key as K
+
+    if key_module is not None:
+        K = key_module
     import pytezos.michelson.forge as F
     from harness import mbv
     from vf import bvx
